@@ -82,8 +82,8 @@ Proof.
   injection Hres as Hr.
   destruct rt; destruct (sols s) as [|m0 rest] eqn:Es; subst r; unfold with_solutions; simpl;
     try (exfalso; apply Hv; reflexivity);
-    try (destruct Hv as [Hv _]; exfalso; apply Hv; reflexivity);
-    try (destruct Hv as [_ Hv]; discriminate).
+    try (exfalso; apply (proj1 Hv); reflexivity);
+    try (exfalso; generalize (proj2 Hv); discriminate).
   - (* RLimit *) repeat split.
     + injection H as Hm. subst m. left. reflexivity.
     + injection H as Hm. subst m. reflexivity.
@@ -203,15 +203,17 @@ Proof.
 Qed.
 
 (* enumeration finished by the "level-0 conflict / no open literal in a blocking clause" route:
-   every model of N /\ A extends one of the recorded models (pure literals are off when enumerating) *)
+   every model of N /\ A extends one of the recorded models (the machine accepts a blocking clause only
+   when no pure literal was asserted, as in the code: pure literals are off when enumerating) *)
 Theorem enum_complete_thm : forall N A limit evs s, run true N A limit evs = Some s ->
-  verdict s = Some RExhausted -> pures s = [] ->
+  verdict s = Some RExhausted ->
   forall a, models a N -> agrees a A ->
   exists m, In m (sols s) /\ forall l, In l m -> lit_true a l = true.
 Proof.
-  intros N A limit evs s Hrun Hv Hp a HN HA.
+  intros N A limit evs s Hrun Hv a HN HA.
   pose proof (run_Inv true N A limit evs s Hrun) as HI.
-  pose proof (inv_verdict true N A s HI) as H. rewrite Hv in H. destruct H as [_ [Hnp Hno]]. specialize (Hno eq_refl).
+  pose proof (inv_verdict true N A s HI) as H. rewrite Hv in H. destruct H as [Hne [Hnp Hno]]. specialize (Hno eq_refl).
+  pose proof (inv_enum_nopure true N A s HI Hnp Hne) as Hp.
   destruct (existsb (fun m => forallb (lit_true a) m) (sols s)) eqn:Eex.
   - apply existsb_exists in Eex. destruct Eex as [m [Hin Hall]]. exists m. split; [exact Hin|].
     rewrite forallb_forall in Hall. exact Hall.
